@@ -127,10 +127,8 @@ fn run_sort(order: &str, key: Key) {
             vassert!(monotone3(key, [v[0].1, v[1].1, v[2].1]), "C15: the sort key is not monotone down the table");
         }
     }
-    match key {
-        Key::None => vcover!(a == k0, "address order kept"),
-        _ => vcover!(a == k2, "the row with the largest address can come first"),
-    }
+    let is_none = matches!(key, Key::None);
+    vcover!(if is_none { a == k0 } else { a == k2 }, "the order can differ from the address order (or is kept when no key is given)");
 }
 
 macro_rules! sort_h {
